@@ -425,3 +425,27 @@ class TestVersionedDict(object):
         d = VersionedDict()
         with pytest.raises(ValueError) as exc:
             d['key', 'bad'] = 4
+
+
+def test_lookup_class_with_patches_fallback(monkeypatch):
+
+    # Regression test: if the new location of a renamed class cannot be
+    # imported (e.g. it lives in glue_qt, which is not installed) but the
+    # original path still exists, the original class is used. This is needed
+    # for e.g. HistogramLayerArtist, which this package still defines and
+    # writes to session files.
+
+    from ..state import PATH_PATCHES, lookup_class_with_patches
+    from ..data import Data, BaseData
+
+    monkeypatch.setitem(PATH_PATCHES, 'glue.core.data.Data', 'glue.core.olddata.Data')
+    monkeypatch.setitem(PATH_PATCHES, 'glue.core.olddata.Data', 'glue_not_installed.data.Data')
+    assert lookup_class_with_patches('glue.core.data.Data') is Data
+
+    # If neither the new nor the original path exist, the error is about the new path
+    with pytest.raises(ValueError, match='glue_not_installed'):
+        lookup_class_with_patches('glue.core.olddata.Data')
+
+    # If the new location can be imported, it is used
+    monkeypatch.setitem(PATH_PATCHES, 'glue.core.olddata.Data', 'glue.core.data.BaseData')
+    assert lookup_class_with_patches('glue.core.data.Data') is BaseData
